@@ -2679,4 +2679,592 @@ theorem nfs4_entry_parse (wide : Bool) (flags : Nat) (e : Entry) (tl rest : List
         rfl htg hobj rfl rfl rfl htw hty0 rfl hperm)
     simpa [joinColon, List.append_assoc] using key
 
+/-! ### A whole generated text: the parser loop is a sequence of `add_entry` calls -/
+
+/-- `text` is read by the parser loop as the entry `a`. -/
+def Parses (wide : Bool) (wantType : Nat) (text : List Ch) (a : Entry) : Prop :=
+  ∀ tl rest o, EntryEnd wide tl rest →
+    parseLoop wide wantType (text ++ tl) o = afterAdd wide wantType rest o a.type a.permset a.tag a.id a.name
+
+/-- The parser loop over a list of recognised entries: `archive_acl_add_entry` for each, stopping
+at the first failure. -/
+def addLoop : List Entry → ParseOut → ParseOut
+  | [], o => o
+  | a :: t, o =>
+    if (addEntry o.acl a.type a.permset a.tag a.id a.name).2 = .failed ∨
+       (addEntry o.acl a.type a.permset a.tag a.id a.name).2 = .fatal then
+      { o with acl := (addEntry o.acl a.type a.permset a.tag a.id a.name).1,
+               status := (addEntry o.acl a.type a.permset a.tag a.id a.name).2, added := o.added + 1 }
+    else addLoop t
+      { o with acl := (addEntry o.acl a.type a.permset a.tag a.id a.name).1,
+               status := if (addEntry o.acl a.type a.permset a.tag a.id a.name).2 ≠ .ok then .warn
+                         else o.status,
+               added := o.added + 1 }
+
+def endTail (wide : Bool) : List Ch := if wide then [0] else []
+
+theorem parseLoop_endTail (wide : Bool) (wantType : Nat) (o : ParseOut) :
+    parseLoop wide wantType (endTail wide) o = .ok o := by
+  cases wide with
+  | false => simp [endTail, parseLoop_nil]
+  | true => simp [endTail, parseLoop_cons]
+
+theorem entryEnd_endTail (wide : Bool) : EntryEnd wide (endTail wide) (endTail wide) := by
+  cases wide with
+  | false => exact EntryEnd.endN rfl
+  | true => exact EntryEnd.endW rfl
+
+theorem intercalate_cons_cons (s : Ch) (a b : List Ch) (t : List (List Ch)) :
+    [s].intercalate (a :: b :: t) = a ++ s :: [s].intercalate (b :: t) := by
+  simp [List.intercalate, List.intersperse_cons_cons]
+
+theorem parse_texts (wide : Bool) (wantType : Nat) (s : Ch) (hs : s = 44 ∨ s = 10)
+    (items : List (List Ch × Entry)) (h : ∀ x ∈ items, Parses wide wantType x.1 x.2) (o : ParseOut) :
+    parseLoop wide wantType ([s].intercalate (items.map (·.1)) ++ endTail wide) o =
+      .ok (addLoop (items.map (·.2)) o) := by
+  induction items generalizing o with
+  | nil => simp [List.intercalate, addLoop, parseLoop_endTail]
+  | cons x t ih =>
+    cases t with
+    | nil =>
+      have hx := h x (by simp) (endTail wide) (endTail wide) o (entryEnd_endTail wide)
+      simp only [List.map_cons, List.map_nil, List.intercalate, List.intersperse_singleton,
+        List.flatten_cons, List.flatten_nil, List.append_nil]
+      rw [hx]
+      unfold afterAdd addLoop
+      split
+      · rfl
+      · rw [parseLoop_endTail]; rfl
+    | cons y t' =>
+      have hx := h x (by simp) (s :: ([s].intercalate ((y :: t').map (·.1)) ++ endTail wide))
+        ([s].intercalate ((y :: t').map (·.1)) ++ endTail wide) o (EntryEnd.sep s _ hs)
+      simp only [List.map_cons] at hx ⊢
+      rw [intercalate_cons_cons, List.append_assoc, List.cons_append, hx]
+      unfold afterAdd
+      rw [addLoop]
+      split
+      · rfl
+      · exact ih (fun z hz => h z (by simp [hz])) _
+
+
+/-! ### The sequence of `add_entry` calls rebuilds the ACL -/
+
+/-- The key test of the overwrite loop in `acl_new_entry`: the stored entry `x` is replaced
+when `e` is added. -/
+def DupKey (x e : Entry) : Prop :=
+  e.type &&& typeNfs4 = 0 ∧ x.type = e.type ∧ x.tag = e.tag ∧ x.id = e.id ∧
+    (e.id ≠ -1 ∨ (e.tag ≠ tagUser ∧ e.tag ≠ tagGroup))
+
+theorem overwrite_none (ty pm tag : Nat) (id : Int) (nm : List Ch) (l : List Entry)
+    (h : ∀ x ∈ l, ¬ (ty &&& typeNfs4 = 0 ∧ x.type = ty ∧ x.tag = tag ∧ x.id = id ∧
+      (id ≠ -1 ∨ (tag ≠ tagUser ∧ tag ≠ tagGroup)))) :
+    overwrite ty pm tag id nm l = none := by
+  induction l with
+  | nil => rfl
+  | cons a t ih =>
+    have ha := h a (by simp)
+    have := ih (fun x hx => h x (by simp [hx]))
+    simp only [overwrite, ha, if_false, this, Option.map_none]
+
+/-- The entry after the round trip. -/
+def img (e : Entry) : Entry := { e with name := rtName e }
+
+def familyMask (e : Entry) : Nat := if IsPosix e.type then typePosix1e else typeNfs4
+
+theorem small_and_seven : ∀ p : Fin 8, p.val &&& 7 = p.val := by decide
+
+theorem within_or {a b m : Nat} (ha : a &&& m = a) (hb : b &&& m = b) : (a ||| b) &&& m = a ||| b := by
+  rw [Nat.and_or_distrib_right, ha, hb]
+
+/-- Adding a well-formed entry that matches no stored key appends it. -/
+theorem addEntry_append (acl : Acl) (e : Entry) (nm : List Ch) (hwf : EntryWF e)
+    (hty : acl.types &&& familyMask e = acl.types)
+    (hk : ∀ x ∈ acl.entries, ¬ DupKey x e) :
+    addEntry acl e.type e.permset e.tag e.id nm =
+      ({ acl with entries := acl.entries ++ [⟨e.type, e.tag, e.permset, e.id, nm⟩],
+                  types := acl.types ||| e.type }, .ok) := by
+  have hspecial : aclSpecial acl e.type e.permset e.tag = none := by
+    unfold aclSpecial
+    by_cases ha : e.type = typeAccess
+    · have hnm := hwf.not_mode
+      have h1 : ¬ e.tag = tagUserObj := fun h => hnm ⟨ha, Or.inl h⟩
+      have h2 : ¬ e.tag = tagGroupObj := fun h => hnm ⟨ha, Or.inr (Or.inl h)⟩
+      have h3 : ¬ e.tag = tagOther := fun h => hnm ⟨ha, Or.inr (Or.inr h)⟩
+      simp [h1, h2, h3]
+    · simp [ha]
+  have hvalid : newEntryValid acl e.type e.permset e.tag = true := by
+    unfold newEntryValid within
+    rcases hwf.type_ok with hp | hn
+    · have hb := posix_bits hp
+      have hpm : e.permset &&& permsPosix1e = e.permset := by
+        have := hwf.perm_ok; rw [if_pos hp] at this
+        exact small_and_seven ⟨e.permset, this⟩
+      have hfam : acl.types &&& typePosix1e = acl.types := by simpa [familyMask, hp] using hty
+      have htyw : e.type &&& typePosix1e = e.type := by rcases hp with h | h <;> rw [h] <;> decide
+      have hnn : ¬ IsNfs4 e.type := by
+        intro hn
+        rcases hp with h | h <;> rcases hn with h' | h' | h' | h' <;> rw [h] at h' <;> revert h' <;> decide
+      rcases hwf.tag_ok with hug | ht | ht | ⟨_, ht⟩ | ⟨hn', _⟩
+      · rcases hug with h | h <;> simp [hb.1, hb.2, hfam, hpm, h]
+      · simp [hb.1, hb.2, hfam, hpm, ht]
+      · simp [hb.1, hb.2, hfam, hpm, ht]
+      · have hne0 : e.type ≠ 0 := by rcases hp with h | h <;> rw [h] <;> decide
+        rcases ht with h | h <;> simp [hb.1, hb.2, hfam, hpm, h, htyw, tagc, hne0]
+      · exact (hnn hn').elim
+    · have hb := nfs4_bits hn
+      have hnp : ¬ IsPosix e.type := by
+        intro hp
+        rcases hp with h | h <;> rcases hn with h' | h' | h' | h' <;> rw [h] at h' <;> revert h' <;> decide
+      have hpm : e.permset &&& (permsNfs4 ||| inheritanceNfs4) = e.permset := by
+        have := hwf.perm_ok; rw [if_neg hnp] at this; exact this
+      have hfam : acl.types &&& typeNfs4 = acl.types := by simpa [familyMask, hnp] using hty
+      have htyw : e.type &&& typeNfs4 = e.type := by rcases hn with h | h | h | h <;> rw [h] <;> decide
+      rcases hwf.tag_ok with hug | ht | ht | ⟨hp', _⟩ | ⟨_, ht⟩
+      · rcases hug with h | h <;> simp [hb.2, hfam, hpm, h]
+      · simp [hb.2, hfam, hpm, ht]
+      · simp [hb.2, hfam, hpm, ht]
+      · exact (hnp hp').elim
+      · have hne0 : e.type ≠ 0 := by rcases hn with h | h | h | h <;> rw [h] <;> decide
+        simp [hb.2, hfam, hpm, ht, htyw, tagc, hne0]
+  have hov : overwrite e.type e.permset e.tag e.id nm acl.entries = none :=
+    overwrite_none _ _ _ _ _ _ (fun x hx => hk x hx)
+  simp only [addEntry, hspecial, hvalid, if_true, hov]
+
+
+theorem img_eq (e : Entry) : (⟨e.type, e.tag, e.permset, e.id, rtName e⟩ : Entry) = img e := rfl
+
+def orTypes (l : List Entry) (t0 : Nat) : Nat := l.foldl (fun t e => t ||| e.type) t0
+
+/-- The loop over the images of a duplicate-free list of well-formed entries of one family
+appends them all. -/
+theorem addLoop_listed (l : List Entry) (o : ParseOut) (m : Nat)
+    (hwf : ∀ e ∈ l, EntryWF e)
+    (hfam : ∀ e ∈ l, familyMask e = m ∧ e.type &&& m = e.type)
+    (hty : o.acl.types &&& m = o.acl.types)
+    (hk : ∀ x ∈ o.acl.entries, ∀ e ∈ l, ¬ DupKey x e)
+    (hpw : l.Pairwise (fun a b => ¬ DupKey a b)) :
+    addLoop (l.map img) o =
+      { o with acl := { o.acl with entries := o.acl.entries ++ l.map img,
+                                   types := orTypes l o.acl.types },
+               added := o.added + l.length } := by
+  induction l generalizing o with
+  | nil => simp [addLoop, orTypes]
+  | cons e t ih =>
+    have hwe := hwf e (by simp)
+    have hfe := hfam e (by simp)
+    have hadd := addEntry_append o.acl e (rtName e) hwe (by rw [hfe.1]; exact hty)
+      (fun x hx => hk x hx e (by simp))
+    have himg : (img e).type = e.type ∧ (img e).permset = e.permset ∧ (img e).tag = e.tag ∧
+        (img e).id = e.id ∧ (img e).name = rtName e := ⟨rfl, rfl, rfl, rfl, rfl⟩
+    simp only [List.map_cons, addLoop, himg.1, himg.2.1, himg.2.2.1, himg.2.2.2.1, himg.2.2.2.2, hadd,
+      reduceCtorEq, or_self, if_false, ne_eq, not_true_eq_false, img_eq]
+    rw [ih]
+    · simp [orTypes, List.append_assoc, Nat.add_assoc, Nat.add_comm 1]
+    · exact fun x hx => hwf x (by simp [hx])
+    · exact fun x hx => hfam x (by simp [hx])
+    · exact within_or hty hfe.2
+    · intro x hx y hy
+      simp only [List.mem_append, List.mem_cons, List.not_mem_nil, or_false] at hx
+      rcases hx with hx | hx
+      · exact hk x hx y (by simp [hy])
+      · rw [hx]
+        have := (List.pairwise_cons.mp hpw).1 y hy
+        exact this
+    · exact (List.pairwise_cons.mp hpw).2
+
+
+/-! The three entries made up from `mode` -/
+
+def headEntries (mode : Nat) : List Entry :=
+  [⟨typeAccess, tagUserObj, rwxVal (mode &&& 0o700), -1, []⟩,
+   ⟨typeAccess, tagGroupObj, rwxVal (mode &&& 0o070), -1, []⟩,
+   ⟨typeAccess, tagOther, rwxVal (mode &&& 0o007), -1, []⟩]
+
+/-- `acl_special` applied to the three entries, starting from mode 0. -/
+def foldMode (m : Nat) : Nat :=
+  let m1 := 0 - (0 &&& 0o700) ||| ((rwxVal (m &&& 0o700) &&& 7) <<< 6)
+  let m2 := m1 - (m1 &&& 0o070) ||| ((rwxVal (m &&& 0o070) &&& 7) <<< 3)
+  m2 - (m2 &&& 0o007) ||| (rwxVal (m &&& 0o007) &&& 7)
+
+theorem and_mod512 (m k : Nat) (hk : 511 &&& k = k) : m &&& k = (m % 512) &&& k := by
+  have : m % 512 = m &&& 511 := (Nat.and_two_pow_sub_one_eq_mod m 9).symm
+  rw [this, Nat.and_assoc, hk]
+
+set_option maxRecDepth 20000 in
+theorem foldMode_small : ∀ r : Fin 512, foldMode r.val = r.val := by decide
+
+theorem foldMode_eq (m : Nat) : foldMode m = m &&& 0o777 := by
+  have h1 : foldMode m = foldMode (m % 512) := by
+    unfold foldMode
+    rw [and_mod512 m 0o700 (by decide), and_mod512 m 0o070 (by decide), and_mod512 m 0o007 (by decide)]
+  rw [h1, foldMode_small ⟨m % 512, Nat.mod_lt _ (by decide)⟩]
+  exact (Nat.and_two_pow_sub_one_eq_mod m 9).symm
+
+theorem rwxVal_lt (p : Nat) : rwxVal p < 8 := by
+  unfold rwxVal
+  split <;> split <;> split <;> decide
+
+theorem addLoop_heads (mode : Nat) (o : ParseOut) (h0 : o.acl.mode = 0) :
+    addLoop (headEntries mode) o =
+      { o with acl := { o.acl with mode := mode &&& 0o777 }, added := o.added + 3 } := by
+  have hspec : ∀ (a : Acl) (p tag : Nat), p < 8 →
+      addEntry a typeAccess p tag (-1) [] = ((aclSpecial a typeAccess p tag).getD a, .ok) ∨
+      aclSpecial a typeAccess p tag = none := by
+    intro a p tag hp
+    cases h : aclSpecial a typeAccess p tag with
+    | none => exact Or.inr rfl
+    | some a' => left; simp [addEntry, h]
+  have hw : ∀ p, p < 8 → within p 7 = true := by
+    intro p hp; unfold within; simp [small_and_seven ⟨p, hp⟩]
+  have hu := rwxVal_lt (mode &&& 0o700)
+  have hg := rwxVal_lt (mode &&& 0o070)
+  have ho := rwxVal_lt (mode &&& 0o007)
+  have e1 : ∀ a : Acl, addEntry a typeAccess (rwxVal (mode &&& 0o700)) tagUserObj (-1) [] =
+      ({ a with mode := a.mode - (a.mode &&& 0o700) ||| ((rwxVal (mode &&& 0o700) &&& 7) <<< 6) }, .ok) := by
+    intro a; simp [addEntry, aclSpecial, hw _ hu]
+  have e2 : ∀ a : Acl, addEntry a typeAccess (rwxVal (mode &&& 0o070)) tagGroupObj (-1) [] =
+      ({ a with mode := a.mode - (a.mode &&& 0o070) ||| ((rwxVal (mode &&& 0o070) &&& 7) <<< 3) }, .ok) := by
+    intro a; simp [addEntry, aclSpecial, hw _ hg, tagc]
+  have e3 : ∀ a : Acl, addEntry a typeAccess (rwxVal (mode &&& 0o007)) tagOther (-1) [] =
+      ({ a with mode := a.mode - (a.mode &&& 0o007) ||| (rwxVal (mode &&& 0o007) &&& 7) }, .ok) := by
+    intro a; simp [addEntry, aclSpecial, hw _ ho, tagc]
+  have hfold := foldMode_eq mode
+  unfold foldMode at hfold
+  simp only [headEntries, addLoop, e1, e2, e3, reduceCtorEq, or_self, if_false, ne_eq,
+    not_true_eq_false, h0]
+  simp only [] at hfold
+  rw [hfold]
+
+
+theorem addLoop_heads_append (mode : Nat) (rest : List Entry) (o : ParseOut) (h0 : o.acl.mode = 0) :
+    addLoop (headEntries mode ++ rest) o =
+      addLoop rest { o with acl := { o.acl with mode := mode &&& 0o777 }, added := o.added + 3 } := by
+  have hw : ∀ p, p < 8 → within p 7 = true := by
+    intro p hp; unfold within; simp [small_and_seven ⟨p, hp⟩]
+  have hu := rwxVal_lt (mode &&& 0o700)
+  have hg := rwxVal_lt (mode &&& 0o070)
+  have ho := rwxVal_lt (mode &&& 0o007)
+  have e1 : ∀ a : Acl, addEntry a typeAccess (rwxVal (mode &&& 0o700)) tagUserObj (-1) [] =
+      ({ a with mode := a.mode - (a.mode &&& 0o700) ||| ((rwxVal (mode &&& 0o700) &&& 7) <<< 6) }, .ok) := by
+    intro a; simp [addEntry, aclSpecial, hw _ hu]
+  have e2 : ∀ a : Acl, addEntry a typeAccess (rwxVal (mode &&& 0o070)) tagGroupObj (-1) [] =
+      ({ a with mode := a.mode - (a.mode &&& 0o070) ||| ((rwxVal (mode &&& 0o070) &&& 7) <<< 3) }, .ok) := by
+    intro a; simp [addEntry, aclSpecial, hw _ hg, tagc]
+  have e3 : ∀ a : Acl, addEntry a typeAccess (rwxVal (mode &&& 0o007)) tagOther (-1) [] =
+      ({ a with mode := a.mode - (a.mode &&& 0o007) ||| (rwxVal (mode &&& 0o007) &&& 7) }, .ok) := by
+    intro a; simp [addEntry, aclSpecial, hw _ ho, tagc]
+  have hfold := foldMode_eq mode
+  unfold foldMode at hfold
+  simp only [headEntries, List.cons_append, List.nil_append, addLoop, e1, e2, e3, reduceCtorEq, or_self,
+    if_false, ne_eq, not_true_eq_false, h0]
+  simp only [] at hfold
+  rw [hfold]
+
+/-! ### Well-formed ACLs -/
+
+/-- What `archive_acl_add_entry` builds from an empty ACL out of entries whose type is one of
+the six ACL types: one family, no mode-mapped ACCESS entry in the list, no two POSIX.1e entries
+with the same key, `acl_types` the OR of the entry types. -/
+structure WF (acl : Acl) : Prop where
+  entries : ∀ e ∈ acl.entries, EntryWF e
+  family : (∀ e ∈ acl.entries, IsPosix e.type) ∨ (∀ e ∈ acl.entries, IsNfs4 e.type)
+  types : acl.types = orTypes acl.entries 0
+  nodup : acl.entries.Pairwise (fun a b => ¬ DupKey a b)
+
+theorem orTypes_and (l : List Entry) (t m : Nat) :
+    orTypes l t &&& m = (t &&& m) ||| orTypes l 0 &&& m := by
+  induction l generalizing t with
+  | nil => simp [orTypes]
+  | cons e r ih =>
+    simp only [orTypes, List.foldl_cons] at ih ⊢
+    rw [ih (t ||| e.type), ih (0 ||| e.type), Nat.and_or_distrib_right, Nat.zero_or, Nat.or_assoc]
+
+theorem orTypes_zero (l : List Entry) (m : Nat) (h : ∀ e ∈ l, e.type &&& m = 0) :
+    orTypes l 0 &&& m = 0 := by
+  induction l with
+  | nil => simp [orTypes]
+  | cons e r ih =>
+    have := orTypes_and r (0 ||| e.type) m
+    simp only [orTypes, List.foldl_cons] at this ⊢
+    rw [this, Nat.zero_or, h e (by simp), Nat.zero_or]
+    exact ih (fun x hx => h x (by simp [hx]))
+
+theorem orTypes_ne_zero (l : List Entry) (m : Nat) (e : Entry) (he : e ∈ l) (h : e.type &&& m ≠ 0) :
+    orTypes l 0 &&& m ≠ 0 := by
+  induction l with
+  | nil => simp at he
+  | cons a r ih =>
+    have := orTypes_and r (0 ||| a.type) m
+    simp only [orTypes, List.foldl_cons] at this ⊢
+    rw [this, Nat.zero_or]
+    intro h0
+    have hz := Nat.or_eq_zero_iff.mp h0
+    rcases List.mem_cons.mp he with h1 | h1
+    · rw [h1] at h; exact h hz.1
+    · exact ih h1 hz.2
+
+
+/-! ### The whole ACL -/
+
+/-- The `want_type` argument that reads back text made with `flags`. -/
+def parseWant (acl : Acl) (flags : Nat) : Nat :=
+  if textWantType acl flags = typeNfs4 then typeNfs4
+  else if textWantType acl flags = typeDefault then typeDefault else typeAccess
+
+/-- The ACL the round trip yields: the entries the text lists (unnamed ones named by their
+id), the permission bits of `mode` when the ACCESS entries were listed. -/
+def rtAcl (acl : Acl) (flags : Nat) : Acl :=
+  { mode := if textWantType acl flags &&& typeAccess ≠ 0 then acl.mode &&& 0o777 else 0,
+    entries := (listed acl (textWantType acl flags)).map img,
+    types := orTypes (listed acl (textWantType acl flags)) 0 }
+
+theorem head_parses (wide : Bool) (fl mode mask tag : Nat)
+    (htag : tag = tagUserObj ∨ tag = tagGroupObj ∨ tag = tagOther)
+    (hx : hasFlag fl styleExtraId = true) :
+    Parses wide typeAccess (appendEntry wide false typeAccess tag fl [] (mode &&& mask) (-1))
+      ⟨typeAccess, tag, rwxVal (mode &&& mask), -1, []⟩ := by
+  intro tl rest o hend
+  have hnug : ¬ IsUG tag := by
+    unfold IsUG; rcases htag with h | h | h <;> rw [h] <;> decide
+  let e : Entry := ⟨typeAccess, tag, mode &&& mask, -1, []⟩
+  have htext : entryText wide fl e = appendEntry wide false typeAccess tag fl [] (mode &&& mask) (-1) := by
+    rw [entryText_extra wide fl e hx]
+    have : decide (e.type = typeDefault ∧ hasFlag fl styleMarkDefault = true) = false := by
+      have : e.type ≠ typeDefault := by show typeAccess ≠ typeDefault; decide
+      simp [this]
+    rw [this]
+  have hq : QualOK e := ⟨fun h => (hnug h).elim, fun _ => ⟨rfl, rfl⟩⟩
+  have hrt : rtName e = [] := by
+    have : ¬ IsUG e.tag := hnug
+    simp [rtName, this]; rfl
+  have := posix_entry_parse' wide fl typeAccess e tl rest o (rwxVal (mode &&& mask))
+    (by
+      rcases htag with h | h | h
+      · exact Or.inr (Or.inl h)
+      · exact Or.inr (Or.inr (Or.inl h))
+      · exact Or.inr (Or.inr (Or.inr (Or.inl ⟨Or.inl rfl, Or.inr h⟩))))
+    (by show (-1 : Int) ≤ 2147483647; omega) rfl hq (Or.inl rfl) hx (Or.inl rfl) (Or.inl rfl) hend
+  rw [htext, hrt] at this
+  exact this
+
+/-- Texts and recognised entries of the three lines made up from `mode`. -/
+def headItems (wide : Bool) (mode fl : Nat) : List (List Ch × Entry) :=
+  [(appendEntry wide false typeAccess tagUserObj fl [] (mode &&& 0o700) (-1),
+      ⟨typeAccess, tagUserObj, rwxVal (mode &&& 0o700), -1, []⟩),
+   (appendEntry wide false typeAccess tagGroupObj fl [] (mode &&& 0o070) (-1),
+      ⟨typeAccess, tagGroupObj, rwxVal (mode &&& 0o070), -1, []⟩),
+   (appendEntry wide false typeAccess tagOther fl [] (mode &&& 0o007) (-1),
+      ⟨typeAccess, tagOther, rwxVal (mode &&& 0o007), -1, []⟩)]
+
+theorem textBody_parse (wide : Bool) (acl : Acl) (wt fl want : Nat) (o : ParseOut)
+    (hx : hasFlag fl styleExtraId = true)
+    (hacc : wt &&& typeAccess ≠ 0 → want = typeAccess)
+    (hitems : ∀ e ∈ listed acl wt, Parses wide want (entryText wide fl e) (img e)) :
+    parseLoop wide want (textBody wide acl wt fl ++ endTail wide) o =
+      .ok (addLoop ((if wt &&& typeAccess ≠ 0 then headEntries acl.mode else []) ++
+        (listed acl wt).map img) o) := by
+  have hs : sepChar fl = 44 ∨ sepChar fl = 10 := by unfold sepChar; split <;> simp
+  let items : List (List Ch × Entry) :=
+    (if wt &&& typeAccess ≠ 0 then headItems wide acl.mode fl else []) ++
+      (listed acl wt).map (fun e => (entryText wide fl e, img e))
+  have h1 : items.map (·.1) =
+      (if wt &&& typeAccess ≠ 0 then headTexts wide acl.mode fl else []) ++
+        (listed acl wt).map (entryText wide fl) := by
+    simp only [items, List.map_append, List.map_map]
+    congr 1
+    · split <;> simp [headItems, headTexts]
+  have h2 : items.map (·.2) =
+      (if wt &&& typeAccess ≠ 0 then headEntries acl.mode else []) ++ (listed acl wt).map img := by
+    simp only [items, List.map_append, List.map_map]
+    congr 1
+    · split <;> simp [headItems, headEntries]
+  have hall : ∀ x ∈ items, Parses wide want x.1 x.2 := by
+    intro x hx'
+    simp only [items, List.mem_append, List.mem_map] at hx'
+    rcases hx' with hx' | ⟨e, he, rfl⟩
+    · split at hx'
+      · rename_i ha
+        rw [hacc ha]
+        simp only [headItems, List.mem_cons, List.not_mem_nil, or_false] at hx'
+        rcases hx' with h | h | h <;> rw [h]
+        · exact head_parses wide fl acl.mode 0o700 tagUserObj (Or.inl rfl) hx
+        · exact head_parses wide fl acl.mode 0o070 tagGroupObj (Or.inr (Or.inl rfl)) hx
+        · exact head_parses wide fl acl.mode 0o007 tagOther (Or.inr (Or.inr rfl)) hx
+      · simp at hx'
+    · exact hitems e he
+  have := parse_texts wide want (sepChar fl) hs items hall o
+  rw [h1, h2] at this
+  exact this
+
+
+theorem hasFlag_or (a b bit : Nat) (h : hasFlag a bit = true) : hasFlag (a ||| b) bit = true := by
+  unfold hasFlag at *
+  simp only [ne_eq, decide_eq_true_eq] at *
+  rw [Nat.and_or_distrib_right]
+  intro h0
+  exact h (Nat.or_eq_zero_iff.mp h0).1
+
+theorem listed_mem {acl : Acl} {wt : Nat} {e : Entry} (h : e ∈ listed acl wt) :
+    e ∈ acl.entries ∧ e.type &&& wt ≠ 0 := by
+  have hm := (List.mem_filter.mp h)
+  refine ⟨hm.1, ?_⟩
+  intro h0
+  have := hm.2
+  simp [skipped, h0] at this
+
+/-- The round trip of a whole ACL, on the model. -/
+theorem roundtrip (wide : Bool) (acl : Acl) (flags : Nat) (hwf : WF acl)
+    (hq : ∀ e ∈ acl.entries, QualOK e) (hx : hasFlag flags styleExtraId = true)
+    (t : List Ch) (ht : toText wide acl flags = .text t) :
+    ∃ n, fromText wide {} t (parseWant acl flags) =
+      .ok { acl := rtAcl acl flags, status := .ok, skipped := 0, added := n } := by
+  -- what `toText` did
+  unfold toText at ht
+  generalize hwt : textWantType acl flags = wt at ht
+  have hwt0 : wt ≠ 0 := by intro h; simp [h] at ht
+  simp only [hwt0, if_false] at ht
+  generalize hfl : textFlags wt flags = fl at ht
+  split at ht
+  · cases ht
+  split at ht
+  · cases ht
+  simp only [TextResult.text.injEq] at ht
+  subst ht
+  have hfx : hasFlag fl styleExtraId = true := by
+    rw [← hfl]; unfold textFlags; split
+    · exact hasFlag_or _ _ _ hx
+    · exact hx
+  -- the family decides the wanted type
+  have hcases := textWantType_cases acl flags
+  rw [hwt] at hcases
+  have hfamily : (wt = typeNfs4 ∧ ∀ e ∈ acl.entries, IsNfs4 e.type) ∨
+      ((wt = typeAccess ∨ wt = typeDefault ∨ wt = typePosix1e) ∧ ∀ e ∈ acl.entries, IsPosix e.type) := by
+    by_cases hall : ∀ e ∈ acl.entries, IsPosix e.type
+    · right
+      have hz : acl.types &&& typeNfs4 = 0 := by
+        rw [hwf.types]; exact orTypes_zero _ _ (fun e he => (posix_bits (hall e he)).2)
+      refine ⟨?_, hall⟩
+      have : textWantType acl flags ≠ typeNfs4 := by
+        unfold textWantType
+        simp only [hz, ne_eq, not_true_eq_false, if_false]
+        cases hasFlag flags typeAccess <;> cases hasFlag flags typeDefault <;> simp <;> decide
+      rw [hwt] at this
+      rcases hcases with h | h | h | h | h
+      · exact (hwt0 h).elim
+      · exact (this h).elim
+      · exact Or.inl h
+      · exact Or.inr (Or.inl h)
+      · exact Or.inr (Or.inr h)
+    · left
+      have hall4 : ∀ e ∈ acl.entries, IsNfs4 e.type := by
+        rcases hwf.family with h | h
+        · exact (hall h).elim
+        · exact h
+      obtain ⟨e0, he0, _⟩ : ∃ e0, e0 ∈ acl.entries ∧ ¬ IsPosix e0.type := by
+        false_or_by_contra
+        rename_i hcon
+        apply hall
+        intro e he
+        exact Decidable.byContradiction (fun hne => hcon ⟨e, he, hne⟩)
+      have hnz : acl.types &&& typeNfs4 ≠ 0 := by
+        rw [hwf.types]; exact orTypes_ne_zero _ _ e0 he0 (nfs4_bits (hall4 e0 he0)).2
+      have hpz : acl.types &&& typePosix1e = 0 := by
+        rw [hwf.types]; exact orTypes_zero _ _ (fun e he => (nfs4_bits (hall4 e he)).1)
+      refine ⟨?_, hall4⟩
+      rw [← hwt]; unfold textWantType
+      simp [hnz, hpz]
+  -- the parser is entered with a type it accepts
+  have hwant : parseWant acl flags = if wt = typeNfs4 then typeNfs4
+      else if wt = typeDefault then typeDefault else typeAccess := by
+    unfold parseWant; rw [hwt]
+  generalize hw : parseWant acl flags = want at hwant
+  have hwantok : want = typeAccess ∨ want = typeDefault ∨ want = typeNfs4 := by
+    rw [hwant]; split
+    · exact Or.inr (Or.inr rfl)
+    · split
+      · exact Or.inr (Or.inl rfl)
+      · exact Or.inl rfl
+  have hnp : want ≠ typePosix1e := by
+    rcases hwantok with h | h | h <;> rw [h] <;> decide
+  have hft : fromText wide {} (textBody wide acl wt fl) want =
+      parseLoop wide want (textBody wide acl wt fl ++ endTail wide) { acl := {}, status := .ok } := by
+    unfold fromText
+    simp only [hnp, if_false, hwantok, if_true]
+    cases wide <;> simp [endTail]
+  rw [hft]
+  -- every listed entry parses back
+  have hitems : ∀ e ∈ listed acl wt, Parses wide want (entryText wide fl e) (img e) := by
+    intro e he tl rest o hend
+    obtain ⟨hmem, hl⟩ := listed_mem he
+    have hwe := hwf.entries e hmem
+    have hqe := hq e hmem
+    rcases hfamily with ⟨hw4, hall4⟩ | ⟨hwp, hallp⟩
+    · have : want = typeNfs4 := by rw [hwant, if_pos hw4]
+      rw [this]
+      exact nfs4_entry_parse wide fl e tl rest o hwe hqe (hall4 e hmem) hfx hend
+    · have hp := hallp e hmem
+      have hwn : wt ≠ typeNfs4 := by rcases hwp with h | h | h <;> rw [h] <;> decide
+      have hwant' : want = if wt = typeDefault then typeDefault else typeAccess := by
+        rw [hwant, if_neg hwn]
+      refine posix_entry_parse wide fl want e tl rest o hwe hqe hp hfx ?_ ?_ hend
+      · rw [hwant']; split
+        · exact Or.inr rfl
+        · exact Or.inl rfl
+      · rcases hwp with h | h | h
+        · -- ACCESS only: listed entries are ACCESS entries
+          left
+          have : want = typeAccess := by rw [hwant', h]; decide
+          rw [this]
+          rcases hp with hp | hp
+          · exact hp
+          · rw [hp, h] at hl; exfalso; revert hl; decide
+        · left
+          have : want = typeDefault := by rw [hwant', if_pos h]
+          rw [this]
+          rcases hp with hp | hp
+          · rw [hp, h] at hl; exfalso; revert hl; decide
+          · exact hp
+        · have hwa : want = typeAccess := by rw [hwant', h]; decide
+          rcases hp with hp | hp
+          · left; rw [hwa]; exact hp
+          · right
+            refine ⟨hp, ?_⟩
+            rw [← hfl]; unfold textFlags; rw [if_pos h]
+            have : hasFlag styleMarkDefault styleMarkDefault = true := by decide
+            rw [Nat.or_comm]; exact hasFlag_or _ _ _ this
+  have hacc : wt &&& typeAccess ≠ 0 → want = typeAccess := by
+    intro ha
+    rcases hfamily with ⟨hw4, _⟩ | ⟨hwp, _⟩
+    · rw [hw4] at ha; exfalso; revert ha; decide
+    · rcases hwp with h | h | h
+      · rw [hwant, h]; decide
+      · rw [h] at ha; exfalso; revert ha; decide
+      · rw [hwant, h]; decide
+  rw [textBody_parse wide acl wt fl want _ hfx hacc hitems]
+  -- the sequence of adds rebuilds the ACL
+  have hlw : ∀ e ∈ listed acl wt, EntryWF e := fun e he => hwf.entries e (listed_mem he).1
+  have hpw : (listed acl wt).Pairwise (fun a b => ¬ DupKey a b) := hwf.nodup.filter _
+  obtain ⟨m, hm⟩ : ∃ m, ∀ e ∈ listed acl wt, familyMask e = m ∧ e.type &&& m = e.type := by
+    rcases hfamily with ⟨_, hall4⟩ | ⟨_, hallp⟩
+    · refine ⟨typeNfs4, fun e he => ?_⟩
+      have h4 := hall4 e (listed_mem he).1
+      have hnp' : ¬ IsPosix e.type := by
+        intro hp
+        rcases hp with h | h <;> rcases h4 with h' | h' | h' | h' <;> rw [h] at h' <;> revert h' <;> decide
+      refine ⟨by simp [familyMask, hnp'], ?_⟩
+      rcases h4 with h | h | h | h <;> rw [h] <;> decide
+    · refine ⟨typePosix1e, fun e he => ?_⟩
+      have hp := hallp e (listed_mem he).1
+      refine ⟨by simp [familyMask, hp], ?_⟩
+      rcases hp with h | h <;> rw [h] <;> decide
+  refine ⟨(if wt &&& typeAccess ≠ 0 then 3 else 0) + (listed acl wt).length, ?_⟩
+  congr 1
+  by_cases ha : wt &&& typeAccess ≠ 0
+  · rw [if_pos ha, addLoop_heads_append _ _ _ rfl]
+    rw [addLoop_listed (listed acl wt) _ m hlw hm (by simp) (by simp) hpw]
+    simp [rtAcl, hwt, ha]
+  · rw [if_neg ha, List.nil_append]
+    rw [addLoop_listed (listed acl wt) _ m hlw hm (by simp) (by simp) hpw]
+    simp [rtAcl, hwt, ha]
+
 end LA.Acl
